@@ -365,8 +365,24 @@ def coq_eval(pid, exec_mod, terms, shard=500, timeout=900, checks=("model_ok", "
 
     def one(job):
         k, fn = job
-        rc, out = sh(["coqc", "-Q", "theories", "God", "-Q", "gen", "GodGen", "-w", "-all", "cases/%s.v" % fn],
-                     cwd=COQ, timeout=timeout)
+        cmd = ["coqc", "-Q", "theories", "God", "-Q", "gen", "GodGen", "-w", "-all", "cases/%s.v" % fn]
+        rc, out = sh(cmd, cwd=COQ, timeout=timeout)
+        if rc == 124:
+            # a loaded machine can starve one shard: run it once more, alone in this worker, with twice the time
+            rc, out = sh(cmd, cwd=COQ, timeout=2 * timeout)
+        # compiled artefacts of a case file are never reused (they are large: ~1 MB per shard); the .v is kept
+        # only when the shard did not evaluate, so that it can be inspected
+        for ext in (".vo", ".vok", ".vos", ".glob", ".aux"):
+            for q in (os.path.join(cdir, fn + ext), os.path.join(cdir, "." + fn + ext)):
+                try:
+                    os.remove(q)
+                except OSError:
+                    pass
+        if rc == 0:
+            try:
+                os.remove(os.path.join(cdir, fn + ".v"))
+            except OSError:
+                pass
         return k, rc, out
 
     res = {ck: [] for ck in checks}
